@@ -139,6 +139,14 @@ func mixOp(r *lib.Rng, nchan int, illegal bool) Op {
 		o.Ch = append(o.Ch, ch)
 		o.Fr = append(o.Fr, fracs[r.Intn(len(fracs))])
 	}
+	if illegal && r.Chance(1, 4) { // unequal numbers of channels and fractions
+		if r.Bool() {
+			o.Fr = append(o.Fr, 0.5)
+		} else {
+			o.Fr = o.Fr[:len(o.Fr)-1]
+		}
+		return o
+	}
 	if r.Chance(1, 4) { // every feedback channel at once
 		o.Ch, o.Fr = nil, nil
 		f := fracs[r.Intn(len(fracs))]
@@ -491,7 +499,7 @@ func corpus() []Case {
 
 func gen(seed uint64, tier string) []interface{} {
 	r := lib.NewRng(seed)
-	n := 250
+	n := 180
 	if tier == "thorough" {
 		n = 5000
 	}
